@@ -29,6 +29,9 @@ func newShortestPathSearch(origin b6.Feature, options b6.UntypedCollection, dist
 		return s, nil
 	}
 
+	if err := requireFeature("origin", origin); err != nil {
+		return nil, err
+	}
 	return nil, fmt.Errorf("Can't find paths from feature type %s", origin.FeatureID().Type)
 }
 
